@@ -271,7 +271,7 @@ func msgDepth(m protoreflect.Message) int {
 	return d + 1
 }
 
-var validateDepths = []int{1, 10, 100, 1000, 5000, 20000, 60000}
+var validateDepths = []int{1, 10, 100, 1000, 4990, 5000, 20000}
 
 func directValidate(r *prng, v int) directOut {
 	depth := rec.Pick(r, validateDepths)
